@@ -19,6 +19,7 @@ import (
 	"path/filepath"
 	"strconv"
 	"strings"
+	"sync"
 	"time"
 
 	proto "github.com/kubewharf/kubebrain-client/api/v2rpc"
@@ -26,6 +27,7 @@ import (
 
 	"github.com/kubewharf/kubebrain/pkg/backend"
 	"github.com/kubewharf/kubebrain/pkg/backend/coder"
+	"github.com/kubewharf/kubebrain/pkg/metrics"
 	"github.com/kubewharf/kubebrain/pkg/server/service/leader"
 	"github.com/kubewharf/kubebrain/pkg/storage"
 	ibadger "github.com/kubewharf/kubebrain/pkg/storage/badger"
@@ -567,6 +569,95 @@ func genHistory(rnd *lib.Rand, n int) []hop {
 	return h[:n]
 }
 
+// ---------- thorough tier only: the real leader.NewLeaderElection(...).Campaign() once ----------
+
+type gaugeMetrics struct {
+	lib.NopMetrics
+	mu   sync.Mutex
+	seen map[string]interface{}
+}
+
+func (m *gaugeMetrics) EmitGauge(name string, v interface{}, t ...metrics.T) error {
+	m.mu.Lock()
+	m.seen[name] = v
+	m.mu.Unlock()
+	return nil
+}
+
+// campaignCase: an old leader (elected through the lock as above) writes the F1 history on memkv and
+// releases the lock the way client-go's release() intends to (Get, then Update to an empty holder);
+// a second Backend then runs the REAL Campaign (client-go elector, 8 s lease): it acquires at once
+// because the holder is empty. Checked on the Go side: OnStartedLeading handed the parsed version to
+// SetCurrentRevision (gauge value == committed revision), the version is a reading of the engine clock
+// not older than the acquisition, and the property itself (revisions above the stored maximum, guarded
+// update works, List sees everything). The elector keeps renewing until the process exits.
+func campaignCase(scratch string, hist []hop) *lib.ImplFailure {
+	r := &runner{eng: lib.EngMem}
+	kv, _, err := lib.NewEngine(lib.EngMem, scratch)
+	if err != nil {
+		return &lib.ImplFailure{What: "campaign: engine does not open: " + err.Error()}
+	}
+	r.kv = kv
+	p1 := newProc(1, "A", kv)
+	r.elect(p1)
+	live := map[string]uint64{}
+	for _, o := range hist {
+		o = resolve(o, live)
+		c, h := r.serve(p1, o)
+		track(live, o, c, h)
+	}
+	l1 := p1.b.GetResourceLock()
+	if _, err := l1.Get(); err != nil {
+		return &lib.ImplFailure{What: "campaign: old leader cannot read its lock: " + err.Error()}
+	}
+	if err := l1.Update(lib.ElRecord("", 50, 1)); err != nil {
+		return &lib.ImplFailure{What: "campaign: releasing the lock failed: " + err.Error()}
+	}
+	lib.ElRetire()
+	_, _, _, maxRev, _ := r.decodedDump()
+	before, _ := kv.GetTimestampOracle(context.Background())
+	p2 := newProc(2, "B", kv)
+	gm := &gaugeMetrics{seen: map[string]interface{}{}}
+	started := make(chan struct{})
+	le := leader.NewLeaderElection(p2.b, gm, func(context.Context) { close(started) }, func() {})
+	go le.Campaign()
+	select {
+	case <-started:
+	case <-time.After(20 * time.Second):
+		return &lib.ImplFailure{What: "campaign: the real elector did not start leading within 20 s on a released lock"}
+	}
+	after, _ := kv.GetTimestampOracle(context.Background())
+	v := p2.b.GetCurrentRevision()
+	js := map[string]interface{}{"history": hist, "max_stored_revision": maxRev, "version": v, "clock_before": before, "clock_after": after}
+	gm.mu.Lock()
+	gv, ok := gm.seen["leader.election.initial.version"].(uint64)
+	gm.mu.Unlock()
+	if !ok || gv != v {
+		return &lib.ImplFailure{What: fmt.Sprintf("campaign: OnStartedLeading reported version %v but the committed revision is %d", gm.seen["leader.election.initial.version"], v), Case: js}
+	}
+	if v < before || v > after {
+		return &lib.ImplFailure{What: fmt.Sprintf("campaign: version %d is not an engine clock reading between %d and %d", v, before, after), Case: js}
+	}
+	if !le.IsLeader() {
+		return &lib.ImplFailure{What: "campaign: IsLeader() is false after OnStartedLeading", Case: js}
+	}
+	p2.expect = v
+	pre := r.list(p2)
+	if len(pre) != len(liveKeys(kv)) {
+		return &lib.ImplFailure{What: fmt.Sprintf("campaign: List(0) at the new leader shows %d keys, the store holds %d live keys", len(pre), len(liveKeys(kv))), Case: js}
+	}
+	for _, kvx := range pre {
+		c, h := r.serve(p2, hop{Kind: "update", Key: kvx.K, Val: "n", Prev: trueRevision(kv, kvx.K)})
+		if c != "HOk" || h <= maxRev {
+			return &lib.ImplFailure{What: fmt.Sprintf("campaign: guarded update of %s with its true revision -> %s, revision %d (stored maximum %d)", kvx.K, c, h, maxRev), Case: js}
+		}
+	}
+	if r.fail != "" {
+		return &lib.ImplFailure{What: "campaign: " + r.fail, Case: js}
+	}
+	return nil
+}
+
 func main() {
 	lib.QuietLogs()
 	lib.ElInstallHook()
@@ -614,6 +705,17 @@ func main() {
 		}
 	}
 
+	campaign := "not run (thorough tier only)"
+	if args.Tier == "thorough" {
+		if f := campaignCase(args.Scratch, witness); f != nil {
+			f.CaseID = len(cases)
+			fails = append(fails, *f)
+			campaign = "failed: " + f.What
+		} else {
+			campaign = "real leader.NewLeaderElection(...).Campaign() acquired a released lock on memkv; version, IsLeader, List(0) and guarded updates checked"
+		}
+	}
+
 	header := "From Coq Require Import String.\nFrom KB Require Import Model.C15Cases.\n" + strings.Join(dictDefs, "\n")
 	w := lib.NewWriter(args, "C15", "c15", header, "c15_case", "c15_check", "c15_oracle", 120)
 	for _, c := range cases {
@@ -622,6 +724,7 @@ func main() {
 	for _, f := range fails {
 		w.Fail(f)
 	}
+	w.Stats.Extra["campaign"] = campaign
 	if err := w.Finish("one case = (engine, history, stop point): old leader elected through the real lock, history prefix, restart/fail-over, new leader elected through the real lock + Describe + parse + SetCurrentRevision, probes; distinct = SHA-256 of the Coq script with observations; non-trivial = at least one request before the hand-over"); err != nil {
 		fmt.Fprintln(os.Stderr, err)
 		os.Exit(2)
